@@ -2,6 +2,7 @@ package hist
 
 import (
 	"fmt"
+	"strings"
 
 	"pgregory.net/rapid"
 
@@ -69,7 +70,7 @@ func DrawTwinSpecs(t *rapid.T, label string) []*Spec {
 
 // DrawSchemaSpec: family 0 type graph, 1 ruled tree, 2 reference graph (recursion, missing types),
 // 3 a root that inherits (allOf) from types which themselves refer to further types, 4 regex
-// types, 5 types wired to each other.
+// types, 5 types wired to each other, 6 a root that inherits from plain types.
 func DrawSchemaSpec(t *rapid.T, label string, family int) *Spec {
 	sp := drawSchemaSpec(t, label, family)
 	// documents that are not JSON: valid ones cut short (mostly inside a literal) or with a byte spoilt
@@ -160,6 +161,28 @@ func drawSchemaSpec(t *rapid.T, label string, family int) *Spec {
 			sp.Schema.Types = sp.Schema.Types[:rapid.IntRange(3, 6).Draw(t, label+"NTypes")]
 		}
 		sp.Docs = append(sp.Docs, `{"id":1,"own":"x","lo":1.5,"d":["t"],"n":1}`, `{"id":1,"tag":"t","m":2,"own":"x"}`, `{"own":"x"}`, `{"id":-1,"n":1,"lo":2.5,"d":[]}`)
+	case 6:
+		// a root that inherits (allOf) from plain types - no TYPE uses allOf: the types may be
+		// shared with other roots
+		parents := rapid.Permutation([]string{"@base", "@mix"}).Draw(t, label+"Parents")[:rapid.IntRange(1, 2).Draw(t, label+"NParents")]
+		allOf := `"` + parents[0] + `"`
+		if len(parents) > 1 || rapid.Bool().Draw(t, label+"List") {
+			allOf = `["` + strings.Join(parents, `", "`) + `"]`
+		}
+		root := "{ // {allOf: " + allOf + "}\n"
+		switch rapid.IntRange(0, 2).Draw(t, label+"Own") {
+		case 0:
+			root += "  \"own\": @own\n"
+		case 1:
+			root += "  \"own\": @own, // {optional: true}\n  \"n\": 1\n"
+		}
+		root += "}"
+		sp.Schema = lib.Spec{Schema: root, Types: []lib.Named{
+			{Name: "@base", Text: "{\n  \"id\": @id,\n  \"tag\": @tag | @id, // {optional: true}\n  \"nested\": { // {optional: true}\n    \"deep\": @id\n  }\n}"},
+			{Name: "@mix", Text: "{\n  \"m\": @id // {optional: true}\n}"},
+			{Name: "@id", Text: "1 // {min: 0}"}, {Name: "@tag", Text: "\"t\" // {minLength: 1}"}, {Name: "@own", Text: "\"x\""},
+		}}
+		sp.Docs = append(sp.Docs, `{"id":1,"own":"x","n":1}`, `{"id":1,"tag":"t","m":2,"own":"x","nested":{"deep":3}}`, `{"own":"x"}`, `{"id":-1,"n":1}`)
 	case 4:
 		// regex types: the example of the type is generated when it is added and becomes part of the schema
 		sp.Schema = lib.Spec{Schema: "{\n  \"code\": @rx,\n  \"tags\": [@word], // {optional: true}\n  @word: 1 // {optional: true}\n}", Types: []lib.Named{
